@@ -64,7 +64,9 @@ class StartupProp(Prop):
             later = next((n for n, e in enumerate(ev) if n > d and e["t"] > ev[d]["t"] and e["l"][0] != "tdRun"), None)
             if later is not None:
                 ev = ev[:later] + [{"l": ["instantOver"], "t": ev[later]["t"]}] + ev[later:]
-        return {"kind": "startup", "prog": case["prog"], "timeout": True, "trace": [e["l"] for e in ev]}
+        from .impl.startup import expand_prog
+
+        return {"kind": "startup", "prog": expand_prog(case["prog"]), "timeout": True, "trace": [e["l"] for e in ev]}
 
     def compare(self, case, impl, model):
         if "root_exception" in impl:
@@ -225,9 +227,10 @@ def monitor_startup(case: dict[str, Any], impl: dict[str, Any]) -> list[tuple[st
     # ---- completion where the discipline says it must complete; exact times
     if rout["k"] == "returned":
         if out["k"] != "returned":
-            tag = "C06" if any(l[0] == "req" for l in labels) else "C05"
-            fails.append((tag, f"a start-up that completes under the documented discipline (all siblings concurrent, waiters "
-                               f"released by matching publications) ended with {out}"))
+            # (C05: every acyclic waiting pattern completes; C06: a waiter is released by the matching publication)
+            for tag in (("C05", "C06") if any(l[0] == "req" for l in labels) else ("C05",)):
+                fails.append((tag, f"a start-up that completes under the documented discipline (all siblings concurrent, "
+                                   f"waiters released by matching publications) ended with {out}"))
             if out["k"] == "timeout":
                 fails.append(("C07", f"a start-up that finishes at t={ref['end']} (time-out {case['timeout']}) was ended by the time-out"))
         else:
